@@ -29,10 +29,16 @@ def py_file(rng, k: int, dup: int | None) -> str:
             lines.append(f'    print("step {k} {j}")')
         for _ in range(rng.choice([0, 1, 2])):
             lines.append(f"    a = a + {rng.randint(100, 9999)}")
+        if rng.random() < 0.5:      # stringly-typed evidence: one function called with a few distinct literals across files
+            lines.append(f'    configure_mode("{rng.choice(["alpha", "beta", "gamma", "delta"])}")')
+            if rng.random() < 0.5:
+                lines.append(f'    configure_mode("{rng.choice(["alpha", "beta", "gamma", "delta"])}")')
         lines.append("    return a")
         lines.append("")
     if dup is not None:
         lines.append(f"def shared_{k}(items, channel, storage, host, query):")
+        if rng.random() < 0.3:
+            lines.append("    # dry: ignore-block")
         lines += DUP_BLOCKS["py"][dup % len(DUP_BLOCKS["py"])]
         lines.append("    return None")
         lines.append("")
@@ -96,6 +102,19 @@ def gen_project(rng, n_files: int, dup_share: float = 0.35, dirs=("", "pkg_a", "
         dup = rng.randint(0, 1) if rng.random() < dup_share else None
         text = py_file(rng, k, dup) if lang == "py" else ts_file(rng, k, dup) if lang == "ts" else rs_file(rng, k)
         files.append((rel, text))
+    if rng.random() < 0.6:
+        # extensionless files: language decided per file (python shebang or unknown), in whatever order they are met
+        extra = [("LICENSE", "Permission is hereby granted, free of charge (4242 times)\n" * 3),
+                 ("deploy", "#!/usr/bin/env python3\n" + py_file(rng, 9000 + k, None)),
+                 ("AUTHORS", "Jane Doe <jane@example.org> 1999\n"),
+                 ("zz_tool", "#!/usr/bin/python\n" + py_file(rng, 9100 + k, None))]
+        rng.shuffle(extra)
+        for rel, text in extra[: rng.choice([2, 3, 4])]:
+            d = rng.choice(dirs)
+            rel = (d + "/" if d else "") + rel
+            if rel not in used:
+                used.add(rel)
+                files.append((rel, text))
     return files
 
 
